@@ -1,10 +1,71 @@
 import Driver.Util
+import Driver.StorageCodec
+import Driver.C01
 
-/-! Placeholder: the line-protocol driver of domain C04 is not written yet. -/
+/-! Driver for domain C04: the model reader (executable snappy decoder, CRC-32) on the same
+    hostile bytes as the real reader.  Flags:
+      * `#F:C04-unbounded-…-alloc`  the model's allocation estimate exceeds the proved bound
+        `321·len + 3.3 MB` (and which unguarded site is responsible);
+      * `#F:C04-entry-count-unprotected`  the file loads without error to a state that is not the
+        Spec state of any prefix of what was written to its base file, and the only damage is the
+        block header's EntryCount;
+      * `#F:C04-misread`  same, any other damage.
+    The model's estimate is appended as `#A:<bytes>` for the check's allocation oracle. -/
 namespace Driver.C04
+open Hv.Storage Driver.Stor Driver.C01
 
-def run (_args : List String) : IO UInt32 := do
-  IO.eprintln "drv: domain C04 has no driver yet"
-  return 2
+structure DS where
+  cfg : Cfg
+  legit : List (String × List String) := []
+
+def allocBound (len : Nat) : Nat := 321 * len + 3300000
+
+def describe (cfg : Cfg) (file : Bytes) : String × Option String :=
+  let load := loadIndex cfg snappyDecoder crc32 file
+  let loadS := match load with
+    | .error e => s!"err {e.name}"
+    | .ok (m, n) => s!"idx {indexDigest m} name={hex n}"
+  let scanS := match scanBlockHeaders file with
+    | .error e => s!"err {e.name}"
+    | .ok (bc, ec, us) => s!"bc={bc} ec={ec} us={us}"
+  let nameS := match readSwampName cfg snappyDecoder crc32 file with
+    | .error e => s!"err {e.name}"
+    | .ok n => hex n
+  let dig := match load with
+    | .ok (m, _) => some (indexDigest m)
+    | .error _ => none
+  (s!"load {loadS} ; scan {scanS} ; name {nameS}", dig)
+
+def step (d : DS) (line : String) : DS × String :=
+  match line.splitOn " " with
+  | ["case", _] => (d, line)
+  | ["base", id, ds] => ({ d with legit := (id, ds.splitOn ",") :: d.legit }, "ok")
+  | ["file", h, id, kind] =>
+    match unhex h with
+    | none => (d, "bad-op")
+    | some file =>
+      let (line, dig) := describe d.cfg file
+      let a := loadAlloc d.cfg snappyDecoder crc32 file
+      let aC := loadAlloc { d.cfg with boundsCompressedSize := true } snappyDecoder crc32 file
+      let allocFlag :=
+        if a ≤ allocBound file.length then ""
+        else if aC ≤ allocBound file.length then "\t#F:C04-unbounded-compressed-size-alloc"
+        else "\t#F:C04-unbounded-decoded-length-alloc"
+      let legit := (d.legit.lookup id).getD []
+      let readFlag := match dig with
+        | none => ""
+        | some g =>
+          if legit.contains g || kind == "payload" then ""   -- CRC-valid crafted payloads *are* their content
+          else if !d.cfg.validatesCrc then "\t#F:C04-checksum-not-validated"
+          else if !d.cfg.validatesULen then "\t#F:C04-decoded-length-not-validated"
+          else if kind == "count" then "\t#F:C04-entry-count-unprotected"
+          else "\t#F:C04-misread"
+      (d, s!"{line}{allocFlag}{readFlag}\t#A:{a}")
+  | _ => (d, "bad-op")
+
+def run (args : List String) : IO UInt32 := do
+  let kv := parseArgs args
+  lineLoop step { cfg := cfgOfArgs kv }
+  return 0
 
 end Driver.C04
